@@ -165,12 +165,11 @@ Section Recency.
     - intros [= <- <- <-]. split; [apply Hsame; intros x; reflexivity | discriminate].
     - intros [= <- <- <-]. split; [apply Hsame; intros x; reflexivity | discriminate].
     - intros [= <- <- <-]. split; [apply Hsame; intros x; reflexivity | discriminate].
-    - destruct (resize mw ms c) as [[[c1 l1] n1]|] eqn:G.
-      + intros [= <- <- <-]. destruct (resize_lru _ _ _ _ _ _ I Hsm G) as (L & _).
+    - destruct (resize mw ms c) as [[c1 l1] n1] eqn:G.
+      intros [= <- <- <-]. destruct (resize_lru _ _ _ _ _ _ I Hsm G) as (L & _).
         rewrite <- (filter_true_id (keys c)) in L. destruct (stamped_sub sigma now c c1 _ _ St L) as [S1 S2].
         split; [apply (stamped_ext sigma); [apply bump_unused; intros x; reflexivity | exact S1]|].
         intros _ x y Hx Hy. rewrite !bump_unused by (intros z; reflexivity). exact (S2 x y Hx Hy).
-      + intros [= <- <- <-]. split; [apply Hsame; intros x; reflexivity | intros _ x y []].
     - destruct (purge c) as [c1 l1] eqn:G. intros [= <- <- <-]. split; [|discriminate].
       destruct (purge_reports _ _ _ G) as [E _]. unfold stamped, keys. rewrite E. cbn [rev map].
       split; [constructor | intros k []].
